@@ -1775,6 +1775,11 @@ func init() {
 	add("C08", "R19.2 is claimed here too: the stored copies must not be rewritten through a shared chunk array.", "R19.2")
 	add("C09", "R19.2/R18.3 are claimed here too: stored copies are not rewritten through a shared chunk array, and a resize copies the live range into a fresh buffer (compacting in place overwrites unexpired events).", "R19.2", "R18.3")
 	add("C05", "R08.3/R09.7 are claimed here too: the replay on reconnect starts at the index found for the presented ID, which must not be made stale by a collection in between.", "R08.3", "R09.7")
+	add("C06", "R07.5 is claimed here too: closing one of Joe's request channels makes a parked Subscribe or Publish panic.", "R07.5")
+	add("C03", "R04.3 is claimed here too: the subscriber is registered with the topics it asked for (its subscription is stored as received), which is what \"never to any other subscriber\" is judged against.", "R04.3")
+	add("C17", "R03.6 is claimed here too: \"that Publish returns [the Put error]\" rests on Publish returning what arrives on its reply channel.", "R03.6")
+	add("C05", "R06.1 is claimed here too: a subscriber's channel closed twice panics Joe's goroutine and with it the server process.", "R06.1")
+	add("C20", "R11.2 is claimed here too: after ErrTooLong the attempt ends (and is retried from a fresh request); re-reading the half-consumed body delivers a truncated event.", "R11.2")
 	add("C13", "R01.3/R01.4 are claimed here too: routing by type presupposes that the interpreter gives every event its own type (reset at dispatch) and dispatches every event that has one.", "R01.3", "R01.4")
 }
 
